@@ -7,7 +7,7 @@ Local Open Scope string_scope. Local Open Scope list_scope.
    variable evaluate alike get the same text and completion from the partial, whatever their block scopes, assigned
    and captured variables, counters, macros and loop state are *)
 Theorem C15_render_isolated : forall f E name var args c1 c2,
-  base c1 = base c2 ->
+  base c1 = base c2 -> cfg c1 = cfg c2 ->
   eval_kwargs (e_uk E) c1 args [] = eval_kwargs (e_uk E) c2 args [] ->
   (forall p lp a, var = Some (p, lp, a) -> eval_path (e_uk E) c1 p = eval_path (e_uk E) c2 p) ->
   obs (exec (S f) E (NRender name var args) c1) = obs (exec (S f) E (NRender name var args) c2).
@@ -16,7 +16,7 @@ Print Assumptions C15_render_isolated.
 
 (* with literal arguments the partial's output is a function of the root globals alone *)
 Theorem C15_render_ignores_caller_locals : forall f E name args c1 c2,
-  base c1 = base c2 -> literal_args args ->
+  base c1 = base c2 -> cfg c1 = cfg c2 -> literal_args args ->
   obs (exec (S f) E (NRender name None args) c1) = obs (exec (S f) E (NRender name None args) c2).
 Proof. exact render_ignores_caller_locals. Qed.
 Print Assumptions C15_render_ignores_caller_locals.
@@ -86,7 +86,7 @@ Print Assumptions C15_include_disabled_everywhere.
 
 (* macros: a body invoked with call is isolated from the caller's locals in the same way *)
 Theorem C15_macro_isolated : forall f E name kws c1 c2,
-  base c1 = base c2 ->
+  base c1 = base c2 -> cfg c1 = cfg c2 ->
   alookup name (macros c1) = alookup name (macros c2) ->
   (forall ps body, alookup name (macros c1) = Some (ps, body) ->
      macro_namespace (e_uk E) c1 ps kws = macro_namespace (e_uk E) c2 ps kws) ->
@@ -95,7 +95,7 @@ Proof. exact call_isolated. Qed.
 Print Assumptions C15_macro_isolated.
 
 Theorem C15_macro_ignores_caller_locals : forall f E name kws c1 c2,
-  base c1 = base c2 -> alookup name (macros c1) = alookup name (macros c2) ->
+  base c1 = base c2 -> cfg c1 = cfg c2 -> alookup name (macros c1) = alookup name (macros c2) ->
   literal_args kws ->
   (forall ps body, alookup name (macros c1) = Some (ps, body) -> literal_params ps) ->
   obs (exec (S f) E (NCall name kws) c1) = obs (exec (S f) E (NCall name kws) c2).
@@ -115,6 +115,67 @@ Theorem C15_no_include_in_macro : forall f E name kws ps pname pvar pargs pre po
 Proof. exact no_include_in_macro. Qed.
 Print Assumptions C15_no_include_in_macro.
 
+(* ---- through overridden inheritance blocks (liquid.extra extends / block) ---- *)
+(* a partial rendered from inside an overridden block resolves its arguments, the ROOT globals and now/today only:
+   nothing the template being extended assigned, captured or bound around the block *)
+Theorem C15_render_in_block_only_explicit_args : forall c na dis x,
+  resolve (copy (copy_block c) na dis) x = first_hit x (na :: base c ++ [builtin_ns]).
+Proof. exact render_in_block_sees_only_arguments_and_globals. Qed.
+Print Assumptions C15_render_in_block_only_explicit_args.
+
+(* C15_render_isolated through blocks: from inside the block-scoped copy a render tag prints and ends exactly as in the
+   context of the template being extended, whenever its arguments evaluate alike in the two (e.g. literals) *)
+Theorem C15_render_isolated_through_block : forall f E name var args c,
+  eval_kwargs (e_uk E) (copy_block c) args [] = eval_kwargs (e_uk E) c args [] ->
+  (forall p lp a, var = Some (p, lp, a) -> eval_path (e_uk E) (copy_block c) p = eval_path (e_uk E) c p) ->
+  obs (exec (S f) E (NRender name var args) (copy_block c)) = obs (exec (S f) E (NRender name var args) c).
+Proof. exact render_isolated_through_block. Qed.
+Print Assumptions C15_render_isolated_through_block.
+
+(* the whole block tag: an overriding block consisting of a render tag with literal arguments prints what that tag
+   prints at the top level of the base template *)
+Theorem C15_block_render_isolated : forall f E bname own ovs name args c,
+  is_disabled TBlock c = false -> overrides c = Some ovs ->
+  alookup bname ovs = Some [NRender name None args] -> literal_args args ->
+  obs (exec (S (S f)) E (NBlock bname own) c) =
+  match obs (exec (S f) E (NRender name None args) c) with
+  | Some (out, Normal) => Some (out ++ [], Normal)
+  | r => r
+  end.
+Proof. exact block_render_isolated. Qed.
+Print Assumptions C15_block_render_isolated.
+
+Theorem C15_macro_isolated_through_block : forall f E name kws c,
+  alookup name (macros (copy_block c)) = alookup name (macros c) ->
+  (forall ps body, alookup name (macros (copy_block c)) = Some (ps, body) ->
+     macro_namespace (e_uk E) (copy_block c) ps kws = macro_namespace (e_uk E) c ps kws) ->
+  obs (exec (S f) E (NCall name kws) (copy_block c)) = obs (exec (S f) E (NCall name kws) c).
+Proof. exact call_isolated_through_block. Qed.
+Print Assumptions C15_macro_isolated_through_block.
+
+(* what an overriding block assigns, captures or counts never reaches the template being extended *)
+Theorem C15_block_leaves_base_template : forall f E bname own ovs c c' o s,
+  overrides c = Some ovs -> exec f E (NBlock bname own) c = Done c' o s -> c' = c.
+Proof. exact block_leaves_base_template. Qed.
+Print Assumptions C15_block_leaves_base_template.
+
+(* include stays disabled inside an inheritance block rendered within a partial or macro body (with
+   C15_include_disabled_everywhere: it raises wherever it is reached there) *)
+Theorem C15_block_keeps_include_disabled : forall c, is_disabled TInclude (copy_block c) = is_disabled TInclude c.
+Proof. exact block_keeps_include_disabled. Qed.
+Print Assumptions C15_block_keeps_include_disabled.
+
+(* witness of the repaired defect: the block-scoped copy used to drop the disabled tags *)
+Theorem C15_block_keeps_include_disabled_old_refuted :
+  ~ (forall c, is_disabled TInclude (copy_block_enabled_old c) = is_disabled TInclude c).
+Proof. exact block_keeps_include_disabled_old_refuted. Qed.
+Print Assumptions C15_block_keeps_include_disabled_old_refuted.
+
+(* witness for the seeded variant (root globals not propagated by the block-scoped branch of copy) *)
+Theorem C15_render_in_block_isolated_old_refuted : ~ render_in_block_isolated_old.
+Proof. exact render_in_block_isolated_old_refuted. Qed.
+Print Assumptions C15_render_in_block_isolated_old_refuted.
+
 (* ---- non-vacuity and reading aids (tests) ---- *)
 Definition ex_out (r : string) := NOut (FPlain (EPath (Path (slit r) [])) []).
 Definition ex_assign (x v : string) := NAssign (slit x) (FPlain (ELit (LStr (slit v))) []).
@@ -122,7 +183,7 @@ Definition ex_p := [ex_out "x"; ex_out "y"; ex_assign "y" "py"; ex_out "y"].
 
 (* the caller's y is invisible to the partial and survives it; a nested partial does not see the outer argument x *)
 Example C15_isolation_example :
-  run_case (Case MStrict UDefault [(slit "p", ex_p); (slit "q", [NText (slit "<"); NRender (slit "p") None []; NText (slit ">")])]
+  run_case (Case MStrict UDefault default_flags [(slit "p", ex_p); (slit "q", [NText (slit "<"); NRender (slit "p") None []; NText (slit ">")])]
               [(slit "g", VInt 1)] [] [] []
               [ex_assign "y" "cy"; NRender (slit "p") None [(slit "x", ELit (LInt 1))]; ex_out "y";
                NRender (slit "q") None [(slit "x", ELit (LInt 2)); (slit "y", ELit (LInt 3))]; ex_out "y"])
@@ -130,19 +191,38 @@ Example C15_isolation_example :
 Proof. vm_compute. reflexivity. Qed.
 
 Example C15_include_disabled_example :
-  run_case (Case MStrict UDefault [(slit "p", [NText (slit "a"); NFor (slit "i") (IRange 1 2) [NInclude (slit "r") None []] []]); (slit "r", [])]
+  run_case (Case MStrict UDefault default_flags [(slit "p", [NText (slit "a"); NFor (slit "i") (IRange 1 2) [NInclude (slit "r") None []] []]); (slit "r", [])]
               [] [] [] [] [NRender (slit "p") None []]) = Err EDisabledTag.
 Proof. vm_compute. reflexivity. Qed.
 
 Example C15_render_for_example :
-  run_case (Case MStrict UDefault [(slit "p", [NText (slit "["); ex_out "seen"; NText (slit "]"); ex_assign "seen" "s"; NIncr (slit "n")])]
+  run_case (Case MStrict UDefault default_flags [(slit "p", [NText (slit "["); ex_out "seen"; NText (slit "]"); ex_assign "seen" "s"; NIncr (slit "n")])]
               [(slit "l", VList [VInt 1; VInt 2])] [] [] [] [NRender (slit "p") (Some (Path (slit "l") [], true, None)) []])
   = Ok (slit "[]0[]0").
 Proof. vm_compute. reflexivity. Qed.
 
 (* two callers satisfying the hypotheses of C15_render_isolated that differ in scopes, locals and counters *)
 Example C15_hypotheses_satisfiable :
-  let c1 := Ctx [[(slit "x", VInt 9)]] [(slit "y", VInt 8)] [[(slit "g", VInt 1)]] [[(slit "g", VInt 1)]] [(slit "x", 3%Z)] [] [] in
-  let c2 := Ctx [] [] [[(slit "g", VInt 1)]] [[(slit "g", VInt 1)]] [] [] [] in
-  base c1 = base c2 /\ eval_kwargs UDefault c1 [(slit "a", EPath (Path (slit "g") []))] [] = eval_kwargs UDefault c2 [(slit "a", EPath (Path (slit "g") []))] [].
-Proof. vm_compute. split; reflexivity. Qed.
+  let c1 := Ctx [[(slit "x", VInt 9)]] [(slit "y", VInt 8)] [[(slit "g", VInt 1)]] [[(slit "g", VInt 1)]] [(slit "x", 3%Z)] [] [] None default_flags in
+  let c2 := Ctx [] [] [[(slit "g", VInt 1)]] [[(slit "g", VInt 1)]] [] [] [] None default_flags in
+  base c1 = base c2 /\ cfg c1 = cfg c2 /\ eval_kwargs UDefault c1 [(slit "a", EPath (Path (slit "g") []))] [] = eval_kwargs UDefault c2 [(slit "a", EPath (Path (slit "g") []))] [].
+Proof. vm_compute. repeat split. Qed.
+
+(* the base template assigns secret and binds i around the block; the partial rendered from the overriding block sees
+   neither, the block itself (block scope) sees both; the block's own assignment does not reach the base template *)
+Example C15_inheritance_example :
+  run_case (Case MStrict UDefault default_flags
+              [(slit "base", [ex_assign "secret" "LEAK"; NFor (slit "i") (IRange 7 7) [NText (slit "<"); NBlock (slit "b") [NText (slit "base")]; NText (slit ">")] []; ex_out "w"]);
+               (slit "p", [NText (slit "["); ex_out "secret"; ex_out "i"; ex_out "g"; NText (slit "]")])]
+              [(slit "g", VStr (slit "G"))] [] [] []
+              [NExtends (slit "base") [(slit "b", [ex_out "secret"; ex_out "i"; ex_assign "w" "W"; NRender (slit "p") None []])]])
+  = Ok (slit "<LEAK7[G]>").
+Proof. vm_compute. reflexivity. Qed.
+
+(* a rendered partial that extends a base template still cannot include from inside its overriding block *)
+Example C15_include_in_block_of_partial_example :
+  run_case (Case MStrict UDefault default_flags
+              [(slit "child", [NExtends (slit "base") [(slit "b", [NInclude (slit "inc") None []])]]);
+               (slit "base", [NText (slit "<"); NBlock (slit "b") []; NText (slit ">")]); (slit "inc", [NText (slit "I")])]
+              [] [] [] [] [NRender (slit "child") None []]) = Err EDisabledTag.
+Proof. vm_compute. reflexivity. Qed.
